@@ -475,10 +475,13 @@ class Verifier(Exec):
         self.fwd_names = []
         if fdef.args.vararg or fdef.args.kwarg:
             tgt = con.ghost.get("forward")
-            if not tgt:
+            if con.ghost.get("ignore_star"):
+                tgt = None
+            elif not tgt:
                 raise Unsupported("%s takes *args/**kw and declares no forward target" % con.name)
-            self.fwd_names = [a.arg for a in self.sources[tgt].args.args if a.arg != "self"]
-            pnames = pnames + self.fwd_names
+            if tgt:
+                self.fwd_names = [a.arg for a in self.sources[tgt].args.args if a.arg != "self"]
+                pnames = pnames + self.fwd_names
         alts = []
         for nm in pnames:
             spec = con.params.get(nm)
